@@ -1,9 +1,777 @@
-// C13: not built yet (stub so that main.rs is already wired; replace the body, keep the two signatures).
-use crate::util::Sink;
+// C13: reconstruction respects the detector's cylindrical and mirror symmetry.
+//
+// Two kinds of case lines (formats documented in ocaml/run_c13.ml):
+//  * `av <recipe> W:.. D:.. P:.. Z:..`  skeleton differential. The event is rebuilt from <recipe>, the real
+//    `MainEvent::avalanches()` is run and printed; the numeric kernels (block deconvolution, pad deconvolution,
+//    pad centroid) are logged through the cfg hooks as oracle tables, and the extracted Coq skeleton replays
+//    block finding / index bookkeeping / column selection / hit extraction / sorting / pairing with them.
+//  * `rel-rot <recipe> <k>`, `rel-mir <recipe>`  pairwise relation on the implementation alone: the multiset of
+//    avalanches of the rotated (mirrored) event equals the rotated (mirrored) multiset. Cases recognised as
+//    members of the two open known-finding classes carry their own tags:
+//       `relkf-fullring <recipe> <k>`  rotation of an event in which all 256 wires carry data (F3)
+//       `relkf-padtie <recipe>`        mirror of an event with two pad hits of bit-identical amplitude in one
+//                                      time bin of one selected column (F6)
+//    The tag is decided by the recogniser, not by the generator's intention.
+use crate::util::*;
+use alpha_g_detector::alpha16::aw_map::TpcWirePosition;
+use alpha_g_detector::alpha16::ADC32_RATE;
+use alpha_g_physics::{verif, Avalanche, MainEvent};
+use std::collections::{BTreeMap, BTreeSet};
+use uom::si::angle::radian;
+use uom::si::f64::{Angle, Time};
+use uom::si::length::meter;
+use uom::si::time::second;
 
-pub fn run(_tier: &str, _seed: u64, _s: &mut Sink) {}
+const NW: usize = 256;
+const NCOLS: usize = 32;
+const NROWS: usize = 576;
+// induced-signal factors used to synthesise neighbouring wire signals (same values as wires.rs; only the
+// shape of the generated events depends on them, no oracle does)
+const NEIGHBOR: [f64; 5] = [1.0, -0.1275, -0.0365, -0.012, -0.0042];
+
+// ------------------------------------------------------------------------------------------------
+// event recipe
+// ------------------------------------------------------------------------------------------------
+#[derive(Clone, Debug, PartialEq)]
+pub struct Ev {
+    n: usize,                              // samples per signal
+    runs: Vec<(usize, usize)>,             // present wires: cyclic runs (start, len)
+    hits: Vec<(usize, usize, f64)>,        // wire pulses: (wire, t0, amplitude); induce on present neighbours
+    pads: Vec<(usize, usize, usize, f64)>, // pad pulses: (column, row, t0, amplitude); a pad is occupied iff listed
+}
+
+fn fhex(x: f64) -> String {
+    format!("{:016x}", x.to_bits())
+}
+fn unfhex(s: &str) -> f64 {
+    f64::from_bits(u64::from_str_radix(s, 16).unwrap())
+}
+
+impl Ev {
+    fn present(&self) -> Vec<bool> {
+        let mut p = vec![false; NW];
+        for &(s, l) in &self.runs {
+            for j in 0..l {
+                p[(s + j) % NW] = true;
+            }
+        }
+        p
+    }
+    fn recipe(&self) -> String {
+        let j = |v: Vec<String>| if v.is_empty() { "-".to_string() } else { v.join(",") };
+        format!(
+            "n{}/w{}/h{}/p{}",
+            self.n,
+            j(self.runs.iter().map(|(s, l)| format!("{s}+{l}")).collect()),
+            j(self.hits.iter().map(|(w, t, a)| format!("{w}@{t}*{}", fhex(*a))).collect()),
+            j(self.pads.iter().map(|(c, r, t, a)| format!("{c}.{r}@{t}*{}", fhex(*a))).collect())
+        )
+    }
+    fn parse(s: &str) -> Option<Ev> {
+        let parts: Vec<&str> = s.split('/').collect();
+        if parts.len() != 4 {
+            return None;
+        }
+        let list = |p: &str, pre: char| -> Option<Vec<String>> {
+            let body = p.strip_prefix(pre)?;
+            Some(if body == "-" { vec![] } else { body.split(',').map(|x| x.to_string()).collect() })
+        };
+        let n = parts[0].strip_prefix('n')?.parse().ok()?;
+        let mut runs = vec![];
+        for e in list(parts[1], 'w')? {
+            let (a, b) = e.split_once('+')?;
+            runs.push((a.parse().ok()?, b.parse().ok()?));
+        }
+        let mut hits = vec![];
+        for e in list(parts[2], 'h')? {
+            let (w, rest) = e.split_once('@')?;
+            let (t, a) = rest.split_once('*')?;
+            hits.push((w.parse().ok()?, t.parse().ok()?, unfhex(a)));
+        }
+        let mut pads = vec![];
+        for e in list(parts[3], 'p')? {
+            let (cr, rest) = e.split_once('@')?;
+            let (c, r) = cr.split_once('.')?;
+            let (t, a) = rest.split_once('*')?;
+            pads.push((c.parse().ok()?, r.parse().ok()?, t.parse().ok()?, unfhex(a)));
+        }
+        Some(Ev { n, runs, hits, pads })
+    }
+    /// rotation by k pad columns = 8k wires
+    fn rotate(&self, k: usize) -> Ev {
+        Ev {
+            n: self.n,
+            runs: self.runs.iter().map(|&(s, l)| ((s + 8 * k) % NW, l)).collect(),
+            hits: self.hits.iter().map(|&(w, t, a)| ((w + 8 * k) % NW, t, a)).collect(),
+            pads: self.pads.iter().map(|&(c, r, t, a)| ((c + k) % NCOLS, r, t, a)).collect(),
+        }
+    }
+    /// mirror about the mid-plane: row r -> 575 - r
+    fn mirror(&self) -> Ev {
+        Ev {
+            n: self.n,
+            runs: self.runs.clone(),
+            hits: self.hits.clone(),
+            pads: self.pads.iter().map(|&(c, r, t, a)| (c, NROWS - 1 - r, t, a)).collect(),
+        }
+    }
+    /// calibrated signals: every float operation is done in recipe order, so a rotated/mirrored recipe gives
+    /// bit-identical signals on the rotated/mirrored channels
+    fn signals(&self) -> (Vec<(usize, Vec<f64>)>, Vec<(usize, usize, Vec<f64>)>) {
+        let wr = wire_response();
+        let pr = pad_response();
+        let present = self.present();
+        let mut wires = vec![];
+        for w in 0..NW {
+            if !present[w] {
+                continue;
+            }
+            let mut s = vec![0.0f64; self.n];
+            for &(hw, t0, amp) in &self.hits {
+                let d = ((w + NW - hw) % NW).min((hw + NW - w) % NW);
+                if d < NEIGHBOR.len() {
+                    let f = amp * NEIGHBOR[d];
+                    for (k, r) in wr.iter().enumerate() {
+                        if t0 + k >= self.n {
+                            break;
+                        }
+                        s[t0 + k] += f * r;
+                    }
+                }
+            }
+            wires.push((w, s));
+        }
+        let mut pm: BTreeMap<(usize, usize), Vec<f64>> = BTreeMap::new();
+        for &(c, r, t0, amp) in &self.pads {
+            let s = pm.entry((c, r)).or_insert_with(|| vec![0.0f64; self.n]);
+            for (k, x) in pr.iter().enumerate() {
+                if t0 + k >= self.n {
+                    break;
+                }
+                s[t0 + k] += amp * x;
+            }
+        }
+        (wires, pm.into_iter().map(|((c, r), s)| (c, r, s)).collect())
+    }
+    fn event(&self) -> MainEvent {
+        let (w, p) = self.signals();
+        MainEvent::verif_from_signals(w, p, 0)
+    }
+}
+
+fn wire_response() -> &'static Vec<f64> {
+    static R: std::sync::OnceLock<Vec<f64>> = std::sync::OnceLock::new();
+    R.get_or_init(verif::wire_response)
+}
+fn pad_response() -> &'static Vec<f64> {
+    static R: std::sync::OnceLock<Vec<f64>> = std::sync::OnceLock::new();
+    R.get_or_init(verif::pad_response)
+}
+
+// ------------------------------------------------------------------------------------------------
+// canonical avalanches
+// ------------------------------------------------------------------------------------------------
+/// (wire index, time bin, z bits, wire amplitude bits, pad amplitude bits); 9999 = not a wire angle / bin time
+type Canon = (usize, usize, u64, u64, u64);
+
+fn phi_table() -> &'static Vec<u64> {
+    static T: std::sync::OnceLock<Vec<u64>> = std::sync::OnceLock::new();
+    T.get_or_init(|| {
+        (0..NW)
+            .map(|i| Angle::new::<radian>(TpcWirePosition::try_from(i).unwrap().phi()).get::<radian>().to_bits())
+            .collect()
+    })
+}
+fn t_table() -> &'static Vec<u64> {
+    static T: std::sync::OnceLock<Vec<u64>> = std::sync::OnceLock::new();
+    T.get_or_init(|| (0..4096).map(|t| Time::new::<second>(t as f64 / ADC32_RATE).get::<second>().to_bits()).collect())
+}
+fn canon(a: &Avalanche) -> Canon {
+    let pb = a.phi.get::<radian>().to_bits();
+    let tb = a.t.get::<second>().to_bits();
+    (
+        phi_table().iter().position(|&x| x == pb).unwrap_or(9999),
+        t_table().iter().position(|&x| x == tb).unwrap_or(9999),
+        a.z.get::<meter>().to_bits(),
+        a.wire_amplitude.to_bits(),
+        a.pad_amplitude.to_bits(),
+    )
+}
+fn canon_str(c: &Canon) -> String {
+    format!("{}.{}.{:016x}.{:016x}.{:016x}", c.0, c.1, c.2, c.3, c.4)
+}
+fn join(v: Vec<String>) -> String {
+    if v.is_empty() {
+        "-".to_string()
+    } else {
+        v.join(",")
+    }
+}
+
+// ------------------------------------------------------------------------------------------------
+// kernel tables through the hooks
+// ------------------------------------------------------------------------------------------------
+fn vec_str(v: &[f64]) -> String {
+    let mut s = format!("{}", v.len());
+    for (i, x) in v.iter().enumerate() {
+        if x.to_bits() != 0 {
+            s.push_str(&format!("~{}^{}", i, fhex(*x)));
+        }
+    }
+    s
+}
+
+struct Tables {
+    ranges: Vec<(usize, usize)>,
+    d: Vec<Vec<(usize, Vec<f64>)>>,
+    p: Vec<(usize, usize, Vec<f64>)>,
+    z: BTreeMap<(usize, u64, u64, u64), u64>,
+    /// per selected column, the concatenation of verif::match_column_inputs
+    hook_avalanches: Vec<Canon>,
+    /// two pad hits of bit-identical amplitude in one time bin of one selected column
+    pad_tie: bool,
+}
+
+/// centroid z of an isolated three-row pattern, from the implementation (None: not a pad hit)
+fn centroid(row: usize, f: f64, m: f64, l: f64) -> Option<u64> {
+    let wire_indices = [8usize, 9, 10, 11, 12, 13, 14, 15];
+    let mut wi: [Vec<f64>; 8] = Default::default();
+    wi[0] = vec![1.0];
+    let mut col: Vec<Vec<f64>> = vec![Vec::new(); NROWS];
+    col[row - 1] = vec![f];
+    col[row] = vec![m];
+    col[row + 1] = vec![l];
+    let col: [Vec<f64>; NROWS] = col.try_into().unwrap();
+    let out = verif::match_column_inputs(wire_indices, &wi, &col);
+    out.first().map(|a| a.z.get::<meter>().to_bits())
+}
+
+fn tables(ev: &MainEvent) -> Tables {
+    let (ws, ps) = ev.verif_signals();
+    let ranges = verif::contiguous_ranges(ws);
+    let mut d = vec![];
+    let mut wire_inputs: Vec<Vec<f64>> = vec![Vec::new(); NW];
+    let mut columns = BTreeSet::new();
+    for &r in &ranges {
+        let out = verif::wire_range_deconvolution(ws, r);
+        for (i, input) in &out {
+            wire_inputs[*i] = input.clone();
+            columns.insert(verif::wire_to_pad_column(*i));
+        }
+        d.push(out);
+    }
+    let mut p = vec![];
+    let mut pin: BTreeMap<(usize, usize), Vec<f64>> = BTreeMap::new();
+    for c in 0..NCOLS {
+        for r in 0..NROWS {
+            if let Some(s) = ps[c][r].as_ref() {
+                let o = verif::pad_deconvolution(s);
+                pin.insert((c, r), o.clone());
+                p.push((c, r, o));
+            }
+        }
+    }
+    // centroid table + tie recogniser, on the selected columns
+    let mut z = BTreeMap::new();
+    let mut pad_tie = false;
+    let empty: Vec<f64> = Vec::new();
+    for &c in &columns {
+        let rows: BTreeSet<usize> = pin.keys().filter(|k| k.0 == c).map(|k| k.1).collect();
+        let tmax = rows.iter().map(|r| pin[&(c, *r)].len()).max().unwrap_or(0);
+        let mut amps_at_t: BTreeMap<usize, Vec<u64>> = BTreeMap::new();
+        for &row in &rows {
+            if row == 0 || row == NROWS - 1 {
+                continue;
+            }
+            let mid = &pin[&(c, row)];
+            let fst = pin.get(&(c, row - 1)).unwrap_or(&empty);
+            let lst = pin.get(&(c, row + 1)).unwrap_or(&empty);
+            for t in 0..tmax {
+                let m = mid.get(t).copied().unwrap_or(0.0);
+                if !(m > 0.0) {
+                    continue;
+                }
+                let f = fst.get(t).copied().unwrap_or(0.0);
+                let l = lst.get(t).copied().unwrap_or(0.0);
+                if let Some(zb) = centroid(row, f, m, l) {
+                    z.insert((row, f.to_bits(), m.to_bits(), l.to_bits()), zb);
+                    let e = amps_at_t.entry(t).or_default();
+                    if e.contains(&m.to_bits()) {
+                        pad_tie = true;
+                    }
+                    e.push(m.to_bits());
+                }
+            }
+        }
+    }
+    // composition of the hooks (must reproduce avalanches(); checked by the caller)
+    let mut hook_avalanches = vec![];
+    for &c in &columns {
+        let mut col: Vec<Vec<f64>> = vec![Vec::new(); NROWS];
+        for r in 0..NROWS {
+            if let Some(o) = pin.get(&(c, r)) {
+                col[r] = o.clone();
+            }
+        }
+        let col: [Vec<f64>; NROWS] = col.try_into().unwrap();
+        let wr = verif::pad_column_to_wires(c);
+        let idx: [usize; 8] = wr.clone().collect::<Vec<_>>().try_into().unwrap();
+        let wi: [Vec<f64>; 8] = wire_inputs[wr].to_vec().try_into().unwrap();
+        hook_avalanches.extend(verif::match_column_inputs(idx, &wi, &col).iter().map(canon));
+    }
+    Tables { ranges, d, p, z, hook_avalanches, pad_tie }
+}
+
+fn observe_av(e: &Ev) -> (String, String, bool, bool) {
+    // returns (table part of the case line, observation, nontrivial, pad_tie)
+    let e2 = e.clone();
+    let r = catch(move || {
+        let ev = e2.event();
+        let av: Vec<Canon> = ev.avalanches().iter().map(canon).collect();
+        let tb = tables(&ev);
+        (av, tb)
+    });
+    let Some((av, tb)) = r else {
+        return ("W:- D:- P:- Z:-".to_string(), "panic".to_string(), false, false);
+    };
+    let present = e.present();
+    let w = join((0..NW).filter(|i| present[*i]).map(|i| i.to_string()).collect());
+    let d = if tb.d.is_empty() {
+        "-".to_string()
+    } else {
+        tb.d.iter()
+            .map(|blk| {
+                format!(
+                    "{}={}",
+                    blk.iter().map(|(i, _)| i.to_string()).collect::<Vec<_>>().join(","),
+                    blk.iter().map(|(_, v)| vec_str(v)).collect::<Vec<_>>().join("/")
+                )
+            })
+            .collect::<Vec<_>>()
+            .join(";")
+    };
+    let p = if tb.p.is_empty() {
+        "-".to_string()
+    } else {
+        tb.p.iter().map(|(c, r, v)| format!("{c}.{r}={}", vec_str(v))).collect::<Vec<_>>().join(";")
+    };
+    let z = if tb.z.is_empty() {
+        "-".to_string()
+    } else {
+        tb.z.iter()
+            .map(|((r, f, m, l), z)| format!("{r},{f:016x},{m:016x},{l:016x}={z:016x}"))
+            .collect::<Vec<_>>()
+            .join(";")
+    };
+    let mut rs = tb.ranges.clone();
+    rs.sort();
+    let mut obs = format!(
+        "ok R={} A={}",
+        join(rs.iter().map(|(a, b)| format!("{a}-{b}")).collect()),
+        join(av.iter().map(canon_str).collect())
+    );
+    if tb.hook_avalanches != av {
+        obs.push_str(" hooks-differ");
+    }
+    (format!("W:{w} D:{d} P:{p} Z:{z}"), obs, !av.is_empty(), tb.pad_tie)
+}
+
+// ------------------------------------------------------------------------------------------------
+// pairwise relations on the implementation
+// ------------------------------------------------------------------------------------------------
+fn run_event(e: &Ev) -> Option<Vec<Canon>> {
+    let e = e.clone();
+    catch(move || e.event().avalanches().iter().map(canon).collect())
+}
+
+fn rel_rot(e: &Ev, k: usize) -> String {
+    let (Some(a), Some(b)) = (run_event(e), run_event(&e.rotate(k))) else {
+        return "fails panic".to_string();
+    };
+    let mut want: Vec<Canon> = a.iter().map(|c| ((c.0 + 8 * k) % NW, c.1, c.2, c.3, c.4)).collect();
+    let mut got = b;
+    want.sort();
+    got.sort();
+    if want == got {
+        return "holds".to_string();
+    }
+    let only_want: Vec<&Canon> = want.iter().filter(|c| !got.contains(c)).collect();
+    let only_got: Vec<&Canon> = got.iter().filter(|c| !want.contains(c)).collect();
+    format!(
+        "fails rotation k={k}: {} avalanches expected, {} found; expected-only {} e.g. {}; found-only {} e.g. {}",
+        want.len(),
+        got.len(),
+        only_want.len(),
+        only_want.first().map(|c| canon_str(c)).unwrap_or("-".into()),
+        only_got.len(),
+        only_got.first().map(|c| canon_str(c)).unwrap_or("-".into())
+    )
+}
+
+fn rel_mir(e: &Ev) -> String {
+    let (Some(a), Some(b)) = (run_event(e), run_event(&e.mirror())) else {
+        return "fails panic".to_string();
+    };
+    let mut want = a;
+    let mut got = b;
+    // one avalanche per (wire, t): pair them by that key
+    want.sort_by_key(|c| (c.0, c.1, c.3, c.4));
+    got.sort_by_key(|c| (c.0, c.1, c.3, c.4));
+    if want.len() != got.len() {
+        return format!("fails mirror: {} avalanches expected, {} found", want.len(), got.len());
+    }
+    for (w, g) in want.iter().zip(&got) {
+        let (zw, zg) = (f64::from_bits(w.2), f64::from_bits(g.2));
+        let same = w.0 == g.0 && w.1 == g.1 && w.3 == g.3 && w.4 == g.4;
+        if !same || !((zw + zg).abs() <= 1e-9) {
+            return format!(
+                "fails mirror: {} mirrored gives {} (z {:e} -> {:e})",
+                canon_str(w),
+                canon_str(g),
+                zw,
+                zg
+            );
+        }
+    }
+    "holds".to_string()
+}
+
+// ------------------------------------------------------------------------------------------------
+// generators
+// ------------------------------------------------------------------------------------------------
+fn amp(r: &mut Rng, lo: f64, hi: f64) -> f64 {
+    lo + (hi - lo) * ((r.next() >> 11) as f64 / (1u64 << 53) as f64)
+}
+
+/// add a wire hit with a matching three-row pad pattern one sample earlier
+fn add_hit(r: &mut Rng, e: &mut Ev, w: usize, t0: usize, a: f64, row: usize) {
+    e.hits.push((w, t0, a));
+    let c = verif::wire_to_pad_column(w);
+    let pa = amp(r, 0.5, 1.5) * a;
+    let (f, l) = (amp(r, 0.2, 0.6), amp(r, 0.2, 0.6));
+    e.pads.push((c, row - 1, t0 - 1, pa * f));
+    e.pads.push((c, row, t0 - 1, pa));
+    e.pads.push((c, row + 1, t0 - 1, pa * l));
+}
+
+fn present_list(e: &Ev) -> Vec<usize> {
+    let p = e.present();
+    (0..NW).filter(|i| p[*i]).collect()
+}
+
+/// hits on random present wires, with pads; `same_t` forces several hits into one time bin
+fn sprinkle(r: &mut Rng, e: &mut Ev, nhits: usize) {
+    let pl = present_list(e);
+    if pl.is_empty() {
+        return;
+    }
+    let shared_t = r.range(3, (e.n - 20) as u64) as usize;
+    for _ in 0..nhits {
+        let w = r.pick(&pl);
+        let t0 = if r.chance(1, 2) { shared_t } else { r.range(3, (e.n - 20) as u64) as usize };
+        let a = amp(r, 20.0, 300.0);
+        let row = r.range(1, (NROWS - 2) as u64) as usize;
+        if r.chance(1, 8) {
+            e.hits.push((w, t0, a)); // wire hit without pad partner
+        } else {
+            add_hit(r, e, w, t0, a, row);
+        }
+    }
+    // stray pad activity in a used column
+    if r.chance(1, 3) {
+        let w = r.pick(&pl);
+        let c = verif::wire_to_pad_column(w);
+        let row = r.range(1, (NROWS - 2) as u64) as usize;
+        let a = amp(r, 20.0, 200.0);
+        let t0 = if r.chance(1, 2) { shared_t - 1 } else { r.range(2, (e.n - 20) as u64) as usize };
+        e.pads.push((c, row - 1, t0, a * 0.4));
+        e.pads.push((c, row, t0, a));
+        e.pads.push((c, row + 1, t0, a * 0.5));
+    }
+    // boundary rows
+    if r.chance(1, 6) {
+        let w = r.pick(&pl);
+        let c = verif::wire_to_pad_column(w);
+        let row = if r.chance(1, 2) { 1 } else { NROWS - 2 };
+        let a = amp(r, 20.0, 200.0);
+        e.pads.push((c, row - 1, shared_t - 1, a * 0.4));
+        e.pads.push((c, row, shared_t - 1, a));
+        e.pads.push((c, row + 1, shared_t - 1, a * 0.5));
+    }
+}
+
+fn new_ev(r: &mut Rng) -> Ev {
+    Ev { n: r.range(40, 96) as usize, runs: vec![], hits: vec![], pads: vec![] }
+}
+
+fn ev_random(r: &mut Rng) -> Ev {
+    let mut e = new_ev(r);
+    let nclusters = r.range(1, 4);
+    let mut pos = r.below(NW as u64) as usize;
+    for _ in 0..nclusters {
+        let len = r.range(1, 14) as usize;
+        e.runs.push((pos % NW, len));
+        pos += len + r.range(1, 60) as usize;
+    }
+    let nh = r.range(1, 5) as usize;
+    sprinkle(r, &mut e, nh);
+    e
+}
+
+/// one block straddling the 255/0 seam: `a` wires before the seam, `b` after
+fn ev_seam(r: &mut Rng, a: usize, b: usize, others: bool) -> Ev {
+    let mut e = new_ev(r);
+    e.runs.push((NW - a, a + b));
+    if others {
+        // further blocks in the middle: exercises swap_remove(0) moving the last middle block to the front
+        let mut pos = b + r.range(1, 20) as usize;
+        for _ in 0..r.range(1, 3) {
+            let len = r.range(1, 10) as usize;
+            if pos + len + 1 >= NW - a {
+                break;
+            }
+            e.runs.push((pos, len));
+            pos += len + r.range(1, 40) as usize;
+        }
+    }
+    // hits close to the seam
+    let t = r.range(3, (e.n - 20) as u64) as usize;
+    let w1 = (NW - 1 - r.below(a.min(3) as u64) as usize) % NW;
+    let w2 = r.below(b.min(3) as u64) as usize;
+    let (a1, a2) = (amp(r, 50.0, 200.0), amp(r, 50.0, 200.0));
+    let (r1, r2) = (r.range(1, 280) as usize, r.range(290, 574) as usize);
+    add_hit(r, &mut e, w1, t, a1, r1);
+    let t2 = if r.chance(1, 2) { t } else { t + 2 };
+    add_hit(r, &mut e, w2, t2, a2, r2);
+    let extra = r.below(3) as usize;
+    sprinkle(r, &mut e, extra);
+    e
+}
+
+/// blocks touching only one side of the seam, single wires, nearly full rings
+fn ev_edge(r: &mut Rng, which: u64) -> Ev {
+    let mut e = new_ev(r);
+    match which % 8 {
+        0 => e.runs.push((0, r.range(1, 12) as usize)),        // starts at wire 0, wire 255 absent
+        1 => {
+            let l = r.range(1, 12) as usize;
+            e.runs.push((NW - l, l)) // ends at wire 255, wire 0 absent
+        }
+        2 => {
+            // both, separated by one absent wire at 0 or 255
+            e.runs.push((1, r.range(1, 9) as usize));
+            e.runs.push((NW - 6, 6));
+        }
+        3 => e.runs.push((r.below(NW as u64) as usize, 1)),   // single wire
+        4 => e.runs.push((r.below(NW as u64) as usize, 255)), // all but one wire
+        5 => {
+            // every second wire
+            for i in 0..12 {
+                e.runs.push(((250 + 2 * i) % NW, 1));
+            }
+        }
+        6 => {} // no wires at all
+        _ => {
+            e.runs.push((0, 1));
+            e.runs.push((NW - 1, 1)); // minimal seam block
+        }
+    }
+    let nh = r.range(1, 3) as usize;
+    sprinkle(r, &mut e, nh);
+    if which % 8 == 6 {
+        // pads without wires
+        e.pads.push((3, 100, 10, 80.0));
+    }
+    if r.chance(1, 8) {
+        e.pads.clear(); // wires without pads
+    }
+    e
+}
+
+/// all 256 wires carry data (class full_ring_256)
+fn ev_full(r: &mut Rng, near_seam: bool) -> Ev {
+    let mut e = new_ev(r);
+    e.runs.push((0, NW));
+    let t = r.range(3, (e.n - 20) as u64) as usize;
+    if near_seam {
+        let (a1, a2) = (amp(r, 50.0, 200.0), amp(r, 50.0, 200.0));
+        add_hit(r, &mut e, 255, t, a1, 100);
+        add_hit(r, &mut e, 0, t + 3, a2, 300);
+    } else {
+        let w = r.range(20, 230) as usize;
+        let a1 = amp(r, 50.0, 200.0);
+        add_hit(r, &mut e, w, t, a1, 100);
+    }
+    let extra = r.below(3) as usize;
+    sprinkle(r, &mut e, extra);
+    e
+}
+
+/// two pad hits of bit-identical amplitude in one time bin of one column (class pad_amplitude_tie);
+/// `doc` = the recipe of DESIGN.md A.12 (F6)
+fn ev_tie(r: &mut Rng, doc: bool) -> Ev {
+    let mut e = new_ev(r);
+    if doc {
+        e.n = 80;
+        e.runs.push((94, 15));
+        e.hits.push((100, 20, 100.0));
+        e.hits.push((102, 20, 60.0));
+        for base in [100usize, 300] {
+            e.pads.push((11, base - 1, 19, 30.0));
+            e.pads.push((11, base, 19, 80.0));
+            e.pads.push((11, base + 1, 19, 40.0));
+        }
+        return e;
+    }
+    let c = r.below(NCOLS as u64) as usize;
+    let first = verif::pad_column_to_wires(c).start;
+    let start = (first + NW - r.range(0, 5) as usize) % NW;
+    e.runs.push((start, 8 + r.range(5, 10) as usize));
+    let t = r.range(3, (e.n - 20) as u64) as usize;
+    let w1 = first + r.below(4) as usize;
+    let w2 = first + 4 + r.below(4) as usize;
+    e.hits.push((w1, t, amp(r, 80.0, 120.0)));
+    e.hits.push((w2, t, amp(r, 40.0, 70.0)));
+    let a = amp(r, 40.0, 120.0);
+    let (f, l) = (a * amp(r, 0.2, 0.6), a * amp(r, 0.2, 0.6));
+    let r1 = r.range(1, 280) as usize;
+    let r2 = r.range(290, 574) as usize;
+    for base in [r1, r2] {
+        e.pads.push((c, base - 1, t - 1, f));
+        e.pads.push((c, base, t - 1, a));
+        e.pads.push((c, base + 1, t - 1, l));
+    }
+    e
+}
+
+// ------------------------------------------------------------------------------------------------
+// emission
+// ------------------------------------------------------------------------------------------------
+fn emit_av(s: &mut Sink, label: &str, e: &Ev) -> bool {
+    let (tabs, obs, nontrivial, tie) = observe_av(e);
+    s.put(&format!("av {} {}", e.recipe(), tabs), &obs, label, nontrivial);
+    tie
+}
+
+fn emit_rot(s: &mut Sink, label: &str, e: &Ev, k: usize) {
+    let full = e.present().iter().all(|x| *x);
+    let tag = if full { "relkf-fullring" } else { "rel-rot" };
+    let o = rel_rot(e, k);
+    let lab = if full { "rot-fullring".to_string() } else { format!("rot-{label}") };
+    s.put(&format!("{tag} {} {k}", e.recipe()), &o, &lab, true);
+}
+
+fn emit_mir(s: &mut Sink, label: &str, e: &Ev, tie: bool) {
+    let tag = if tie { "relkf-padtie" } else { "rel-mir" };
+    let o = rel_mir(e);
+    let lab = if tie { "mir-padtie".to_string() } else { format!("mir-{label}") };
+    s.put(&format!("{tag} {}", e.recipe()), &o, &lab, true);
+}
+
+fn emit_all(s: &mut Sink, r: &mut Rng, label: &str, e: &Ev, nrot: usize) {
+    let tie = emit_av(s, label, e);
+    let ks: Vec<usize> = if nrot >= 31 {
+        (1..32).collect()
+    } else {
+        let mut v = vec![1usize, 31];
+        while v.len() < nrot {
+            let k = r.range(2, 30) as usize;
+            if !v.contains(&k) {
+                v.push(k);
+            }
+        }
+        v.truncate(nrot);
+        v
+    };
+    for k in ks {
+        emit_rot(s, label, e, k);
+    }
+    emit_mir(s, label, e, tie);
+}
+
+pub fn run(tier: &str, seed: u64, s: &mut Sink) {
+    let mut r = Rng::new(seed ^ 0xC13);
+    let thorough = tier == "thorough";
+    let known = std::env::var("VERIF_C13_SKIP_KNOWN").is_err();
+    let nrot = if thorough { 31 } else { 4 };
+    // the two documented witnesses first
+    if known {
+        let e = ev_tie(&mut r, true);
+        emit_all(s, &mut r, "padtie-doc", &e, nrot);
+    }
+    let n_random = if thorough { 300 } else { 220 };
+    for _ in 0..n_random {
+        let e = ev_random(&mut r);
+        emit_all(s, &mut r, "random", &e, nrot);
+    }
+    // seam blocks: every length at the seam (thorough), a sample (quick)
+    if thorough {
+        for len in 2..=24usize {
+            for a in 1..len {
+                let e = ev_seam(&mut r, a, len - a, (a + len) % 3 == 0);
+                emit_all(s, &mut r, "seam", &e, 3);
+            }
+        }
+        for _ in 0..60 {
+            let a = r.range(1, 40) as usize;
+            let b = r.range(1, 40) as usize;
+            let e = ev_seam(&mut r, a, b, true);
+            emit_all(s, &mut r, "seam-merge", &e, nrot);
+        }
+    } else {
+        for _ in 0..110 {
+            let a = r.range(1, 12) as usize;
+            let b = r.range(1, 12) as usize;
+            let others = r.chance(1, 2);
+            let e = ev_seam(&mut r, a, b, others);
+            emit_all(s, &mut r, if others { "seam-merge" } else { "seam" }, &e, nrot);
+        }
+    }
+    let n_edge = if thorough { 160 } else { 64 };
+    for i in 0..n_edge {
+        let e = ev_edge(&mut r, i);
+        emit_all(s, &mut r, "edge", &e, if thorough { 8 } else { 3 });
+    }
+    // known-finding classes (skeleton differential always; the relations under their own tags)
+    let n_full = if thorough { 12 } else { 4 };
+    for i in 0..n_full {
+        let e = ev_full(&mut r, i % 2 == 0);
+        if known {
+            emit_all(s, &mut r, "fullring", &e, if thorough { 8 } else { 3 });
+        } else {
+            emit_av(s, "fullring", &e);
+            emit_mir(s, "fullring", &e, false);
+        }
+    }
+    let n_tie = if thorough { 40 } else { 10 };
+    for _ in 0..n_tie {
+        let e = ev_tie(&mut r, false);
+        if known {
+            emit_all(s, &mut r, "padtie", &e, 3);
+        } else {
+            emit_av(s, "padtie", &e);
+            emit_rot(s, "padtie", &e, 1 + r.below(31) as usize);
+        }
+    }
+}
 
 /// implementation observation for a case line of this module (None: not one of mine)
-pub fn observe_line(_line: &str) -> Option<String> {
-    None
+pub fn observe_line(line: &str) -> Option<String> {
+    let toks: Vec<&str> = line.split(' ').collect();
+    match toks.first().copied() {
+        Some("av") => {
+            let e = Ev::parse(toks.get(1)?)?;
+            Some(observe_av(&e).1)
+        }
+        Some("rel-rot") | Some("relkf-fullring") => {
+            let e = Ev::parse(toks.get(1)?)?;
+            let k: usize = toks.get(2)?.parse().ok()?;
+            Some(rel_rot(&e, k))
+        }
+        Some("rel-mir") | Some("relkf-padtie") => {
+            let e = Ev::parse(toks.get(1)?)?;
+            Some(rel_mir(&e))
+        }
+        _ => None,
+    }
 }
